@@ -2,6 +2,7 @@
    value on every assignment m < 2^n is the defining predicate), and single-bit access reads/writes exactly the
    addressed value. Statements only; proofs are in Proofs/Constructors.v. *)
 From Coq Require Import List NArith Arith Bool.
+From V Require Proofs.ExprsTie3.  (* whole-word regimes, fill_symmetric, text widths: regenerated from the Rust source, equal the model's *)
 From V Require Proofs.ExprsTie.   (* the kernels' word-level expressions, regenerated from the Rust source, equal the model's *)
 From V Require Import Base.Res Gen.Tables Model.Kernels Model.Api Spec.Bfun Proofs.Constructors.
 Import ListNotations.
